@@ -183,6 +183,21 @@ def make_rod(rng, dim, n_elems=None, taper=None, centreline=None, length=None, r
     return rod, {"n_elems": n, "taper": taper, "centreline": centreline, "length": length, "r0": r0}
 
 
+def stretch_rod(rod, rng, lo=0.7, hi=1.4):
+    """change the rod's cross-sections AFTER a forcing grid may have been built on it: every element is stretched /
+    compressed along its own tangent by a random factor in [lo, hi] (directions, hence directors, stay valid), then
+    PyElastica's own geometry update rescales ``rod.radius`` per element (volume conservation: r ~ 1/sqrt(length)).
+    Returns the per-element factors."""
+    x = rod.position_collection
+    lam = rng.uniform(lo, hi, rod.n_elems)
+    if rng.random() < 0.3:
+        lam[...] = float(rng.choice([0.7, 1.3]))  # uniform 30 % compression / stretch
+    seg = (x[:, 1:] - x[:, :-1]) * lam[None, :]
+    x[:, 1:] = x[:, :1] + np.cumsum(seg, axis=1)
+    refresh_rod_geometry(rod)
+    return lam
+
+
 def set_rod_directors(rod, rng, dim, roll="random"):
     """per-element directors with d3 = element tangent (rows d1, d2, d3; det +1)"""
     x = rod.position_collection
